@@ -64,6 +64,7 @@ type c08Flip struct {
 	Sched   SchedSpec
 	FlipPct int
 	Salt    int
+	After   bool `json:",omitempty"` // the flag-flipped copy arrives AFTER the proper one (else before it)
 }
 
 func genC08Flip(protos []string) func(t *rapid.T) c08Flip {
@@ -76,6 +77,7 @@ func genC08Flip(protos []string) func(t *rapid.T) c08Flip {
 		c.Sched = genSched(t, n, schedNoPre)
 		c.FlipPct = rapid.SampledFrom([]int{10, 30, 60, 100}).Draw(t, "flipPct")
 		c.Salt = rapid.IntRange(0, 1000).Draw(t, "salt")
+		c.After = rapid.Bool().Draw(t, "flipAfter")
 		return c
 	}
 }
@@ -89,8 +91,13 @@ func runC08Flip(c c08Flip) ev.Outcome {
 	out, mon := runScheduledMon("C08", c07Case{Run: c.Run, Sched: c.Sched}, func(x *runCtx, m *monitor) {
 		net := x.net
 		held := map[*sim.Delivery]*sim.Delivery{}
+		after := map[*sim.Delivery]bool{}
 		net.OnCreate = func(d *sim.Delivery) bool {
-			if (d.ID*7919+c.Salt)%100 >= c.FlipPct {
+			if d.Tag != "" || (d.ID*7919+c.Salt)%100 >= c.FlipPct {
+				return true
+			}
+			if c.After { // the proper copy first; its flag-flipped duplicate follows once it has been delivered
+				after[d] = true
 				return true
 			}
 			f := &sim.Delivery{E: d.E, To: d.To, From: d.From, Bytes: d.Bytes, Bcast: !d.Bcast, Tag: "flip"}
@@ -101,6 +108,26 @@ func runC08Flip(c c08Flip) ev.Outcome {
 		}
 		prev := net.AfterStep
 		net.AfterStep = func(s sim.Step) {
+			if s.D != nil && after[s.D] && s.Kind == sim.StepDeliver {
+				delete(after, s.D)
+				// only when the proper copy has just been ACCEPTED (it belongs to the recipient's current round and the
+				// round no longer waits for its sender): a wrong-channel copy that arrives while the proper one is
+				// still waiting to be accepted replaces it in the store (observation O3 in DESIGN.md)
+				cur := m.lastRound[s.Node]
+				if cur == 0 {
+					cur = 1
+				}
+				accepted := net.Nodes[s.Node].Started && m.needRound(s.Node, s.D.E.Type) == cur
+				for _, id := range net.Nodes[s.Node].P.WaitingFor() {
+					if id.KeyInt().Cmp(s.D.From.KeyInt()) == 0 {
+						accepted = false // the round still waits for something from this sender (a second message type)
+					}
+				}
+				if accepted {
+					net.Inject(&sim.Delivery{E: s.D.E, To: s.D.To, From: s.D.From, Bytes: s.D.Bytes, Bcast: !s.D.Bcast, Tag: "flip"})
+					flips++
+				}
+			}
 			if s.D != nil && s.D.Tag == "flip" {
 				if orig, ok := held[s.D]; ok {
 					delete(held, s.D)
@@ -113,7 +140,7 @@ func runC08Flip(c c08Flip) ev.Outcome {
 		}
 	})
 	out = c08Outcome(out, mon)
-	out.Label = fmt.Sprintf("flagflip %s sched=%s flips>0=%v", c.Run, c.Sched.Class(), flips > 0)
+	out.Label = fmt.Sprintf("flagflip %s sched=%s flips>0=%v flipped-copy-after=%v", c.Run, c.Sched.Class(), flips > 0, c.After)
 	out.Nontrivial = flips > 0
 	return out
 }
